@@ -512,3 +512,30 @@ Example c06_wrong_positions_do_not_roundtrip :
              map (fun x => n_ridx x) (flat (t_root t')) = [3; 4; 0].
 Proof. exact wrong_positions_do_not_roundtrip. Qed.
 Print Assumptions c06_wrong_positions_do_not_roundtrip.
+
+(* Trees extended by hand. NewTree stores at every node the aggregate of the node's CURRENT
+   subtree, whatever was stored there before ... *)
+Theorem c06_newtree_stores_current_aggregates : forall G gadd (n x : tnode G),
+  In x (flat (with_aggs gadd n)) -> n_agg x = Some (agg_of gadd x).
+Proof. exact with_aggs_all. Qed.
+Print Assumptions c06_newtree_stores_current_aggregates.
+
+(* ... so NewTree ; AddChild ; NewTree again on the same nodes gives the aggregates of the final
+   tree (by induction: any number of AddChild, any number of intermediate NewTree): the sender's
+   tree then satisfies [aggs_computed] and c06_roundtrip applies to it. The correspondence
+   builds such senders (class sender-extended, propagation class extended) and compares their
+   stored aggregates with [with_aggs]. *)
+Theorem c06_newtree_after_extension : forall G gadd path (c n : tnode G),
+  with_aggs gadd (add_child path c (with_aggs gadd n)) = with_aggs gadd (add_child path c n).
+Proof. exact newtree_after_extension. Qed.
+Print Assumptions c06_newtree_after_extension.
+
+Example c06_extension_example :
+  let s := fun i k => mkSrv i k [] false in
+  let t1 := with_aggs Nat.add (Node 101 (s 1 10) 0 None [Node 102 (s 2 20) 1 None []]) in
+  let t2 := with_aggs Nat.add (add_child [0] (Node 104 (s 4 40) 3 None [])
+                                 (add_child [] (Node 103 (s 3 30) 2 None []) t1)) in
+  map (fun x => n_agg x) (flat t1) = [Some 30; Some 20] /\
+  map (fun x => n_agg x) (flat t2) = [Some 100; Some 60; Some 40; Some 30].
+Proof. exact extension_example. Qed.
+Print Assumptions c06_extension_example.
